@@ -66,6 +66,34 @@ def run_variant(mod, base_model, v, tier, base_idents=frozenset()):
             'constructs': [i.as_dict() for i in viol][:3]}
 
 
+def _variant_worker(args):
+    prop, idx, tier, base = args
+    mod = load_check(prop)
+    variants = list(getattr(mod, 'VARIANTS', []))
+    model = Model()
+    if hasattr(mod, 'extra_variants') and tier == 'thorough':
+        variants += list(mod.extra_variants(model))
+    return idx, run_variant(mod, model, variants[idx], tier, frozenset(tuple(b) for b in base))
+
+
+def run_variants(prop, mod, model, variants, all_variants, tier, base_viol):
+    """Run the source variants, in parallel processes when there are many (each is a full re-analysis)."""
+    jobs = int(os.environ.get('VERIF_JOBS', '0') or 0) or min(16, os.cpu_count() or 1)
+    idxs = [all_variants.index(v) for v in variants]
+    if len(variants) < 6 or jobs <= 1:
+        return [run_variant(mod, model, v, tier, base_viol) for v in variants]
+    import concurrent.futures as cf
+    import multiprocessing as mp
+    out = {}
+    try:
+        with cf.ProcessPoolExecutor(max_workers=min(jobs, len(variants)), mp_context=mp.get_context('fork')) as ex:
+            for idx, r in ex.map(_variant_worker, [(prop, i, tier, [list(b) for b in base_viol]) for i in idxs]):
+                out[idx] = r
+    except Exception:       # no multiprocessing available: fall back to sequential
+        return [run_variant(mod, model, v, tier, base_viol) for v in variants]
+    return [out[i] for i in idxs]
+
+
 def main(argv=None):
     ap = argparse.ArgumentParser()
     ap.add_argument('prop')
@@ -135,21 +163,17 @@ def _main(prop, a, seed, timer):
             new_viol.append(i)
 
     # ---- self validation ----------------------------------------------------
-    variants = list(getattr(mod, 'VARIANTS', []))
-    if a.tier == 'quick':
-        variants = [v for v in variants if v.kind == 'M']
+    all_variants = list(getattr(mod, 'VARIANTS', []))
     if hasattr(mod, 'extra_variants') and a.tier == 'thorough':
-        variants += list(mod.extra_variants(model))
+        all_variants += list(mod.extra_variants(model))
+    variants = [v for v in all_variants if v.kind == 'M'] if a.tier == 'quick' else list(all_variants)
     vres = []
     control_errs = []
     if not new_viol and not floor_errs:
         # controls are run on a tree that is clean (or carries only known findings):
         # a control 'fires' only through a construct that is not already violating.
         base_viol = {i.ident() for i in ctx.violations()}
-        for v in variants:
-            r = run_variant(mod, model, v, a.tier, base_viol)
-            if v.kind == 'M' and r['status'] == 'fired':
-                pass
+        for v, r in zip(variants, run_variants(prop, mod, model, variants, all_variants, a.tier, base_viol)):
             vres.append(r)
             if v.kind == 'M' and r['status'] == 'silent':
                 control_errs.append('positive control stayed silent: %s' % v.name)
